@@ -570,7 +570,7 @@ def rule_P1_P2(ctx, cname, writer, reader, obj, rid1='P1', rid2='P2', reader_onl
     # every writer key whose source attribute is mutable run state is restored (no silently
     # dropped state); keys written from attributes that only constructors assign, or from
     # derived expressions, are informational and need not be read back
-    rkeys = {r.key for r in R}
+    rkeys = {r.key for r in R if r.kind != 'probe'}      # asking whether a key exists restores nothing
     mutable = _mutable_attrs(ctx.program, cname)
     for w in W:
         if w.attr is None or '<dyn>' in w.key:
@@ -2344,7 +2344,7 @@ def rule_P15(ctx, cname, updater, reader, obj, rid='P15'):
              'of the same class')
     U = writer_table(updater, role='U')
     R = reader_table(reader, obj)
-    rkeys = {r.key for r in R}
+    rkeys = {r.key for r in R if r.kind != 'probe'}
     n = 0
     seen = set()
     for u in U:
